@@ -819,7 +819,7 @@ fail:
 	return NULL;
 }
 static const char *plen_class(uint64_t p) { return p >> 63 ? "pubtime-top-bit" : p >> 32 ? "pubtime-33-63-bit" : p > 4096 ? "pubtime-32-bit" : "pubtime-small"; }
-static void cal_time_check(KSI_CalendarHashChain *c, const unsigned char *isLeft, size_t n, uint64_t p, int valid, uint64_t t, const char *origin) {
+static void cal_time_check1(KSI_CalendarHashChain *c, const unsigned char *isLeft, size_t n, uint64_t p, int valid, uint64_t t, const char *origin) {
 	time_t out = (time_t)-777; int res; char key[160], rep[400], dirs[200]; size_t i;
 	vh_eval++;
 	res = KSI_CalendarHashChain_calculateAggregationTime(c, &out);
@@ -840,6 +840,23 @@ static void cal_time_check(KSI_CalendarHashChain *c, const unsigned char *isLeft
 		VIOL(key, rep, "shape is the path of leaf %llu but the call failed with 0x%x | %s", (unsigned long long)t, res, rep); }
 	else { snprintf(key, sizeof key, "calculateAggregationTime:time-differs:%s", plen_class(p));
 		VIOL(key, rep, "time %lld, reference %llu | %s", (long long)out, (unsigned long long)t, rep); }
+}
+
+static void cal_time_check(KSI_CalendarHashChain *c, const unsigned char *isLeft, size_t n, uint64_t p, int valid, uint64_t t, const char *origin) {
+	static unsigned turn; KSI_Integer *d = NULL; uint64_t dv; char o2[120];
+	cal_time_check1(c, isLeft, n, p, valid, t, origin);
+	if (n == 0 || (turn++ & 3)) return;
+	/* the same chain object carrying a declared aggregation time that is not the one its shape gives: the derivation is from shape and publication
+	 * time alone */
+	switch ((turn >> 2) % 4) { case 0: dv = valid && t > 0 ? t - 1 : p; break; case 1: dv = valid && t < p ? t + 1 : 0; break; case 2: dv = 0; break; default: dv = p; }
+	if (valid && dv == t) dv = t ? t - 1 : 1;
+	if (KSI_Integer_new(ctx, dv, &d) != KSI_OK) return;
+	KSI_CalendarHashChain_setAggregationTime(c, d);
+	snprintf(o2, sizeof o2, "%s, declared aggregation time %llu", origin, (unsigned long long)dv);
+	cal_time_check1(c, isLeft, n, p, valid, t, o2);
+	vh_count("cal_time_with_other_declared_time", 1);
+	KSI_CalendarHashChain_setAggregationTime(c, NULL);
+	KSI_Integer_free(d);
 }
 
 static void mode_calx(int Lc, uint64_t P) {
